@@ -397,6 +397,96 @@ func slowWriterRun(e *concEnv) string {
 	return "slow-writer"
 }
 
+// panickingCallbackRun: a user callback (filter predicate, ForEach/Map/Reduce function, verifier, discharger) that
+// PANICS on one token; the caller recovers - as net/http does for a handler - and keeps using the bundle: every
+// later call on it and on a selection sharing its guard returns (the lock was released on the way out), and a
+// token added afterwards is there.
+func panickingCallbackRun(e *concEnv) string {
+	mk := func() *bundle.Bundle {
+		b, err := bundle.ParseBundleWithFilter(concLoc, e.hdr+",fo1_a,fo1_b,fo1_c", bundle.KeepAll)
+		if err != nil {
+			panic(err)
+		}
+		return b
+	}
+	boomAt := func(n int) func() {
+		var calls int64
+		return func() {
+			if atomic.AddInt64(&calls, 1) == int64(n) {
+				panic("callback failure")
+			}
+		}
+	}
+	type cbOp struct {
+		name string
+		f    func(b *bundle.Bundle, boom func())
+	}
+	ops := []cbOp{
+		{"ForEach", func(b *bundle.Bundle, boom func()) { bundle.ForEach(b, func(t bundle.Token) { boom() }) }},
+		{"Map", func(b *bundle.Bundle, boom func()) { bundle.Map(b, func(t bundle.Token) int { boom(); return 0 }) }},
+		{"Reduce", func(b *bundle.Bundle, boom func()) {
+			bundle.Reduce(b, func(n int, t bundle.Token) int { boom(); return n + 1 })
+		}},
+		{"Filter", func(b *bundle.Bundle, boom func()) { b.Filter(bundle.Predicate(func(bundle.Token) bool { boom(); return true })) }},
+		{"Select", func(b *bundle.Bundle, boom func()) { b.Select(bundle.Predicate(func(bundle.Token) bool { boom(); return true })) }},
+		{"Any", func(b *bundle.Bundle, boom func()) { b.Any(bundle.Predicate(func(bundle.Token) bool { boom(); return false })) }},
+		{"Count", func(b *bundle.Bundle, boom func()) { b.Count(bundle.Predicate(func(bundle.Token) bool { boom(); return true })) }},
+		{"Verify", func(b *bundle.Bundle, boom func()) {
+			b.Verify(context.Background(), bundle.VerifierFunc(func(ctx context.Context, perm bundle.Macaroon, diss []bundle.Macaroon) bundle.VerificationResult {
+				boom()
+				return nil
+			}))
+		}},
+		{"Discharge", func(b *bundle.Bundle, boom func()) {
+			b.Discharge(concTP, e.ka, func(cs []macaroon.Caveat) ([]macaroon.Caveat, error) { boom(); return nil, nil })
+		}},
+	}
+	for _, op := range ops {
+		for _, onDerived := range []bool{false, true} {
+			b := mk()
+			derived := b.Select(bundle.KeepAll)
+			target := b
+			if onDerived {
+				target = derived
+			}
+			n := 3
+			if op.name == "Verify" || op.name == "Discharge" {
+				n = 1
+			}
+			func() {
+				defer func() { _ = recover() }()
+				op.f(target, boomAt(n))
+			}()
+			done := make(chan string, 1)
+			go func() {
+				defer func() {
+					if r := recover(); r != nil {
+						done <- fmt.Sprintf("panic(after a recovered callback panic in %s: %v)", op.name, r)
+					}
+				}()
+				b.AddTokens("fo1_after")
+				_ = derived.Len()
+				_ = b.Header()
+				derived.AddTokens("fo1_after2")
+				if !strings.Contains(b.Header(), "fo1_after") || !strings.Contains(derived.Header(), "fo1_after2") {
+					done <- fmt.Sprintf("lost-update(after a recovered callback panic in %s)", op.name)
+					return
+				}
+				done <- "ok"
+			}()
+			select {
+			case r := <-done:
+				if r != "ok" {
+					return r
+				}
+			case <-time.After(3 * time.Second):
+				return fmt.Sprintf("hang(calls after a recovered callback panic in %s, derived=%v: the lock is still held)", op.name, onDerived)
+			}
+		}
+	}
+	return "panicking-callbacks"
+}
+
 func famConc(r *Rng, o *Out, tier string) {
 	e := newConcEnv()
 	g, iters, wd := 4, 150, 4*time.Second
@@ -421,6 +511,7 @@ func famConc(r *Rng, o *Out, tier string) {
 	// concurrently by design): a filter must not carry state between its applications
 	o.emit("(const shared-filter)", sharedFilterRun(e, iters))
 	o.emit("(const slow-writer)", slowWriterRun(e))
+	o.emit("(const panicking-callbacks)", panickingCallbackRun(e))
 	hangs := 0
 	for _, a := range all {
 		for _, w := range writers {
